@@ -83,7 +83,7 @@ CONFIG = {
     'C09': {
         "quick": {'checks': 8000, 'shards': 4, 'timeout': 900},
         "thorough": {'checks': 300000, 'shards': 14, 'timeout': 3600, 'shrinktime': '60s'},
-        "assumptions": ['a return inside a block body is not generated', "'return nil' is generated only as the sole return of a template", 'a range stops after an iteration that executed a return (pinned by the existing suite)'],
+        "assumptions": ['a range stops after an iteration that executed a return (pinned by the existing suite)', 'a return inside a template run by includeIfExists is not generated (the function evaluates to a boolean)'],
     },
     'C13': {
         "quick": {'checks': 10000, 'shards': 4, 'timeout': 900},
